@@ -4,3 +4,4 @@ pub mod build;
 pub mod exec;
 pub mod hooks;
 pub mod vsched;
+pub mod conc;
